@@ -296,39 +296,60 @@ theorem resolveExprCore_good {N : Nat} {l r : Value} {op : Char} {mode : Mode} {
       exact ⟨hl, hr, fun _ => by simpa using ha⟩
     · cases h
 
+theorem symPost_good {N : Nat} {s r : Value} (hs : s.Good N) (h : symPost s = .ok r) : r.Good N := by
+  unfold symPost at h
+  cases s with
+  | address j mj =>
+    simp only [Value.isAddress, if_true, Except.ok.injEq] at h
+    subst h; exact hs
+  | numeric a b c d =>
+    simp only [Value.isAddress, Value.isNumeric, if_true, Bool.false_eq_true, if_false] at h
+    have hs' : a ≤ 65535 := hs
+    exact numericOfInt_good N h (by split <;> omega)
+  | _ => simp [Value.isAddress, Value.isNumeric] at h
+
+/-- batch 4: `resolve` follows chains of EQU expressions (`resolveF`); the invariant goes through every level -/
+theorem resolveF_good {N : Nat} {t : SymTab} (ht : SymTab.Good N t) : ∀ (n : Nat) {v r : Value}, v.Good N →
+    resolveF n v t = .ok r → r.Good N
+  | 0, _, _, _, h => by cases h
+  | n + 1, v, r, hv, h => by
+    have hsym : ∀ {name : Str} {s : Value}, getSymF n t name = .ok s → s.Good N := by
+      intro name s hs
+      unfold getSymF at hs
+      cases hg : t.get? name with
+      | none => rw [hg] at hs; cases hs
+      | some e =>
+        rw [hg] at hs; dsimp only at hs
+        split at hs
+        · exact resolveF_good ht n (ht.get hg) hs
+        · cases hs; exact ht.get hg
+    have hlook : ∀ {x y : Value}, x.Good N → lookF n t x = .ok y → y.Good N := by
+      intro x y hx hxy
+      cases x with
+      | symbol name m => exact hsym hxy
+      | _ => cases hxy; exact hx
+    cases v with
+    | symbol name md =>
+      rw [resolveF_symbol] at h
+      cases hs : getSymF n t name with
+      | error e => rw [hs] at h; cases h
+      | ok s => rw [hs] at h; exact symPost_good (hsym hs) h
+    | expr l r' op mode ae =>
+      rw [resolveF_expr] at h
+      cases hl : lookF n t l with
+      | error e => rw [hl] at h; cases h
+      | ok l' =>
+        cases hr : lookF n t r' with
+        | error e => rw [hl, hr] at h; cases h
+        | ok r'' =>
+          rw [hl, hr] at h
+          exact resolveExprCore_good (hlook hv.1 hl) (hlook hv.2.1 hr) h
+    | pyNone => exact absurd hv id
+    | _ => cases h; exact hv
+
 theorem Value.resolve_good {N : Nat} {t : SymTab} (ht : SymTab.Good N t) {v r : Value} (hv : v.Good N)
-    (h : v.resolve t = .ok r) : r.Good N := by
-  cases v with
-  | symbol name md =>
-    unfold Value.resolve at h
-    dsimp only at h
-    cases hg : t.get? name with
-    | none => rw [hg] at h; cases h
-    | some s =>
-      rw [hg] at h
-      dsimp only at h
-      have hs := ht.get hg
-      cases s with
-      | address j mj =>
-        simp only [Value.isAddress, if_true, Except.ok.injEq] at h
-        subst h; exact hs
-      | numeric a b c d =>
-        simp only [Value.isAddress, Value.isNumeric, if_true, Bool.false_eq_true, if_false] at h
-        have hs' : a ≤ 65535 := hs
-        exact numericOfInt_good N h (by split <;> omega)
-      | _ => simp [Value.isAddress, Value.isNumeric] at h
-  | expr l r' op mode ae =>
-    rw [resolve_expr_eq] at h
-    cases hl : lookV t l with
-    | error e => rw [hl] at h; cases h
-    | ok l' =>
-      cases hr : lookV t r' with
-      | error e => rw [hl, hr] at h; cases h
-      | ok r'' =>
-        rw [hl, hr] at h
-        exact resolveExprCore_good (lookV_good ht hv.1 hl) (lookV_good ht hv.2.1 hr) h
-  | pyNone => exact absurd hv id
-  | _ => cases h; exact hv
+    (h : v.resolve t = .ok r) : r.Good N :=
+  resolveF_good ht _ hv h
 
 theorem leftPost_good {N : Nat} {t : SymTab} (ht : SymTab.Good N t) {v r : Value} (hv : v.Good N)
     (h : leftPost t v = .ok r) : r.Good N := by
